@@ -186,6 +186,18 @@ func diffResponses(got, want response) string {
 	return ""
 }
 
+// opFrames: the frames of one operation id ("type|payload"), the id itself left out.
+func opFrames(frames []string, id string) []string {
+	var out []string
+	for _, f := range frames {
+		p := strings.SplitN(f, "|", 3)
+		if len(p) == 3 && p[1] == id {
+			out = append(out, p[0]+"|"+p[2])
+		}
+	}
+	return out
+}
+
 func wsTrouble(r response) bool {
 	if r.Status == -1 {
 		return true
@@ -227,6 +239,24 @@ func judge(h *histRun, myRegs func(upto int) []registration) {
 				// a dial / read timeout of the harness's own socket is not an observation of gqlgen
 				res.count("ws_sessions_unusable_socket_trouble", 1)
 				continue
+			}
+		}
+		if rq.WS != nil && len(rq.WS.Ops) > 1 {
+			// every operation of a connection is a request of its own: what it is answered must be
+			// what the same operation alone, first on a fresh connection of a fresh server, gets
+			for k, op := range rq.WS.Ops {
+				alone := &request{Transport: "ws", WS: &wsSession{Subprotocol: rq.WS.Subprotocol, Ops: []wsOp{op}}, Note: "ws-op-alone"}
+				wa := fresh(h.Cache, alone, myRegs(i))
+				if wsTrouble(wa) {
+					res.count("ws_sessions_unusable_socket_trouble", 1)
+					continue
+				}
+				g, w := opFrames(h.got[i].Frames, fmt.Sprintf("op%d", k+1)), opFrames(wa.Frames, "op1")
+				res.count("ws_operations_compared_alone", 1)
+				if strings.Join(g, "\n") != strings.Join(w, "\n") {
+					res.violate("ws-operation-differs-from-same-operation-alone", map[string]any{"why": fmt.Sprintf("operation %d of the connection is answered %v; alone on a fresh connection it is answered %v", k+1, g, w),
+						"history": h, "index": i, "request": rq, "operation": k + 1})
+				}
 			}
 		}
 		if d := diffResponses(h.got[i], want); d != "" {
